@@ -169,6 +169,9 @@ def check_b(ck, repo):
     # the model is cloned for every cell
     cl = [s for s in own_nodes(fi.node) if isinstance(s, ast.Assign) and src_of(s.targets[0]) == "mod"]
     ck.verdict(len(cl) == 1 and src_of(cl[0].value) == "clone(model)", "C18.b", fi, cl[0] if cl else "mod = clone(model)", "a fresh clone per cell: the caller's model is untouched", "the caller's model is fitted in place")
+    if cl:
+        loops_cl = [src_of(p_.target) for p_ in _parents(cl[0]) if isinstance(p_, ast.For)]
+        ck.verdict(loops_cl[:1] == ["j"], "C18.b", fi, f"clone inside loops {loops_cl}", "one fresh clone per cell (i, j)", f"the model is cloned once per {loops_cl[:1] or 'call'}, not once per cell: a model that keeps state between fits (warm_start) carries the fit for another target into this cell")
     fit = [c for c in own_nodes_incl_lambda(fi.node) if isinstance(c, ast.Call) and src_of(c.func) == "mod.fit"]
     pr = [s for s in own_nodes(fi.node) if isinstance(s, ast.Assign) and src_of(s.targets[0]) == "v"]
     ck.verdict(len(fit) == 1 and [src_of(a) for a in fit[0].args] == ["xi_train", "xj_train.ravel()"] and len(pr) == 1 and src_of(pr[0].value) == "mod.predict(xi_test)", "C18.b", fi, "mod.fit(xi_train, xj_train); v = mod.predict(xi_test)", "column j is predicted from column i: trained on the train half, scored on the test half", "the model is not trained on (x_i train, x_j train) and evaluated on x_i test")
@@ -212,7 +215,7 @@ def run(ck):
     check_b(ck, repo)
     check_c(ck, repo)
     ck.require_count("C18.a", 8, "term interval, c, init, updates, loop/returns, nests, scaling")
-    ck.require_count("C18.b", 13, "branch isomorphism, min/max, set-up, effects, clone, fit/predict, four column slices")
+    ck.require_count("C18.b", 14, "branch isomorphism, min/max, set-up, effects, clone, fit/predict, four column slices")
     ck.require_count("C18.c", 6, "table, resolution, branches, refusal, forwarding, defaults")
 
 
@@ -228,6 +231,7 @@ WITNESSES = [
     {"name": "minmax-init-zero", "file": _C, "rule": "C18.b", "old": "                        if k == 0:\n                            mini[i, j] = co\n", "new": "                        if k == 1:\n                            mini[i, j] = co\n"},
     {"name": "scale-in-place", "file": _C, "rule": "C18.b", "old": "    df = scale(df)\n", "new": "    df = scale(df, copy=False)\n"},
     {"name": "model-not-cloned", "file": _C, "rule": "C18.b", "old": "                mod = clone(model)\n", "new": "                mod = model\n"},
+    {"name": "clone-per-row", "file": _C, "rule": "C18.b", "old": "            for j in range(cor.shape[1]):\n", "new": "            mod = clone(model)\n            for j in range(cor.shape[1]):\n"},
     {"name": "test-half-is-train", "file": _C, "rule": "C18.b", "old": "                xj_test = df_test[:, j : j + 1]\n", "new": "                xj_test = df_train[:, j : j + 1]\n"},
     {"name": "log-is-log1p", "file": _S, "rule": "C18.c", "old": '"log": numpy.log}', "new": '"log": numpy.log1p}'},
     {"name": "tr-on-pred", "file": _S, "rule": "C18.c", "old": "        return metric_function(tr(y_true), y_pred, **kwargs)\n", "new": "        return metric_function(y_true, tr(y_pred), **kwargs)\n"},
